@@ -277,6 +277,27 @@ def worker(ctx):
                 ctx.note('pair generation failed on %s: %r' % (tname, e))
         if len(t) <= 16:
             automorphisms(ctx, t, tname)
+        # search, grow the target (or the pattern) in place, search again: the second search sees the structure as it is now
+        if rng.random() < .25 and len(t) <= 14:
+            try:
+                t2 = t.copy()
+                G._fix_slots(t2)
+                p = cut_molecule(t2, rng)
+                list(p.get_mapping(t2))
+                t2.connected_components
+                extra = smiles(rng.choice(('CO', 'O', 'CC', 'C1CC1', '[Na+]', 'CCO')))
+                t2 |= extra if rng.random() < .5 else extra.copy()
+                ctx.count('histories.in-place-union')
+                check_pair(ctx, p, t2, 'cut-then-target-grown:' + str(p), str(t2), rng, False)
+                p2 = cut_molecule(extra, rng)
+                check_pair(ctx, p2, t2, 'cut-of-added-species:' + str(p2), str(t2), rng, False)
+                q2 = p.copy()
+                G._fix_slots(q2)
+                list(q2.get_mapping(t2))
+                q2 |= cut_molecule(extra, rng)
+                check_pair(ctx, q2, t2, 'pattern-grown-in-place:' + str(q2), str(t2), rng, False)
+            except Exception as e:
+                ctx.note('in-place union history failed on %s: %r' % (tname, e))
 
 
 def replay(ctx, mechanism, w):
